@@ -1099,6 +1099,7 @@ pub fn suite_stress(t: &mut Trace, seed: u64, rounds: u64) -> String {
         let lookups = Arc::new(AtomicU64::new(0));
         let accepted: Arc<Mutex<Vec<u64>>> = Arc::new(Mutex::new(Vec::new()));
         let vetoes: Arc<Mutex<Vec<(u64, u64)>>> = Arc::new(Mutex::new(Vec::new()));
+        let overwritten: Arc<Mutex<Vec<u64>>> = Arc::new(Mutex::new(Vec::new()));
         let progress = Arc::new(AtomicU64::new(0));
         let current: Arc<Vec<AtomicU64>> = Arc::new((0..nthreads).map(|_| AtomicU64::new(0)).collect());
         let mut hs = Vec::new();
@@ -1110,15 +1111,33 @@ pub fn suite_stress(t: &mut Trace, seed: u64, rounds: u64) -> String {
             let vetoed: Arc<Mutex<Vec<(u64, u64)>>> = vetoes.clone();
             let progress = progress.clone();
             let current = current.clone();
+            let overwritten = overwritten.clone();
             hs.push(std::thread::spawn(move || {
                 let mut mine = Vec::new();
                 EXITS.with(|e| e.borrow_mut().clear());
                 for i in 0..per_thread {
                     let idx = r.range(1, nkeys);
                     progress.fetch_add(1, AO::Relaxed);
-                    let k = r.below(12);
-                    current[th].store(match k { 0..=5 => 0, 6..=8 => 1, 9 => 2, _ => 3 }, AO::Relaxed);
+                    let k = r.below(14);
+                    current[th].store(match k { 0..=5 => 0, 6..=8 => 1, 9 => 2, 10 | 11 => 3, _ => 4 }, AO::Relaxed);
                     match k {
+                        12 => {
+                            // write through get_mut: the old value is overwritten in place (no callback)
+                            let val = 3_000_000 + ((i << 4) | th as u64);
+                            let res = do_op(&ck, &Op::GetMutWrite { idx, conf: 0, val });
+                            lookups.fetch_add(1, AO::SeqCst);
+                            if let Some(old) = res.strip_prefix("getmut:").and_then(|x| x.parse::<u64>().ok()) {
+                                overwritten.lock().unwrap().push(old);
+                                mine.push(val);
+                            }
+                        }
+                        13 => {
+                            if i % 16 == 0 {
+                                let _ = do_op(&ck, &Op::UpdateMaxCost(r.range(4, 40) as i64));
+                            } else {
+                                let _ = do_op(&ck, &Op::Len);
+                            }
+                        }
                         0..=5 => {
                             let _ = do_op(&ck, &Op::Get { idx, conf: 0 });
                             lookups.fetch_add(1, AO::SeqCst);
@@ -1244,10 +1263,11 @@ pub fn suite_stress(t: &mut Trace, seed: u64, rounds: u64) -> String {
             }
         }
         let resident: std::collections::HashSet<u64> = s.store.iter().map(|e| e.value).collect();
+        let over: std::collections::HashSet<u64> = overwritten.lock().unwrap().iter().copied().collect();
         for v in accepted.lock().unwrap().iter() {
-            let n = handed.get(v).copied().unwrap_or(0) + if resident.contains(v) { 1 } else { 0 };
+            let n = handed.get(v).copied().unwrap_or(0) + if resident.contains(v) { 1 } else { 0 } + if over.contains(v) { 1 } else { 0 };
             if n != 1 {
-                fails.push(("C08", round, format!("{}: value {} accepted by an insert is in {} places at quiescence (resident: {}, callbacks: {})", cfgs, v, n, resident.contains(v), handed.get(v).copied().unwrap_or(0))));
+                fails.push(("C08", round, format!("{}: value {} accepted by an insert is in {} places at quiescence (resident: {}, callbacks: {}, overwritten through get_mut: {})", cfgs, v, n, resident.contains(v), handed.get(v).copied().unwrap_or(0), over.contains(v))));
                 break;
             }
         }
